@@ -8,6 +8,8 @@ mod mon;
 mod oracle;
 mod pgn;
 mod report;
+mod scenario;
+mod srch;
 mod selftest;
 mod util;
 
